@@ -1,7 +1,10 @@
 """C04 — results depend on the instant, never on the Date's scale label."""
 import ast
+import copy
+import datetime as _dtm
 import math
 import os
+import pickle
 
 from harness import core
 from harness.core import Outcome
@@ -19,6 +22,8 @@ THEOREMS = [
     "BeyondVerif.C04.add_carries_record_of_utc_day",
     "BeyondVerif.C04.add_function_of_instant",
     "BeyondVerif.C04.add_after_relabel",
+    "BeyondVerif.C04.range_dates_are_sums",
+    "BeyondVerif.C04.range_dates_carry_record",
     "BeyondVerif.C04.consumers_function_of_instant",
     "BeyondVerif.C04.utc_fields_function_of_instant",
     "BeyondVerif.C04.consumers_within_slack",
@@ -194,6 +199,7 @@ def extract_ccsds_dates():
 # ---------------------------------------------------------------- correspondence: the real Date vs C03's integer model
 
 UNIFORM = ("UTC", "TAI", "TT", "GPS")
+T0 = _dtm.datetime(1858, 11, 17)
 ENVS = ("real", "zero", "const")
 DAY_US = 86400 * 10**6
 MOCK_EOP = dict(x=-0.00951054166666622, y=0.31093590624999734, dpsi=-94.19544791666682, deps=-10.295645833333051,
@@ -269,6 +275,18 @@ def gen_delta(rng, tod, envname):
     return rng.randint(-200 * DAY_US, 200 * DAY_US)
 
 
+def make_date(Date, dt, scale, form):
+    """the constructor forms of Date for one clock reading: datetime, calendar fields, (day, seconds), Date.strptime"""
+    if form == 0:
+        return Date(dt, scale=scale)
+    if form == 1:
+        return Date(dt.year, dt.month, dt.day, dt.hour, dt.minute, dt.second, dt.microsecond, scale=scale)
+    if form == 2:
+        us = (dt - T0)
+        return Date(us.days, us.seconds + us.microseconds / 1e6, scale=scale)
+    return Date.strptime(dt.strftime("%Y-%m-%dT%H:%M:%S.%f"), "%Y-%m-%dT%H:%M:%S.%f", scale=scale)
+
+
 def show(x):
     from harness.props import C03
     return C03.real_show(x)[3:]
@@ -319,7 +337,7 @@ def correspondence(ctx):
                 ops, rep = [], []
                 exact = sc in UNIFORM
                 try:
-                    x = Date(C03.dt_of(us), scale=sc)
+                    x = make_date(Date, C03.dt_of(us), sc, rng.randrange(4))
                     rep.append(show(x))
                     nops = rng.choice([1, 1, 2, 3, 5]) if exact else 1
                     for k in range(nops):
@@ -340,9 +358,12 @@ def correspondence(ctx):
                                 exact = False
                             ops.append(f"c{to}")
                             x = x.change_scale(to)
-                        else:
+                        elif r < 0.97:
                             ops.append("n")
                             x = Date(x)
+                        else:
+                            ops.append("p")          # a copy made without the constructor: the same date
+                            x = pickle.loads(pickle.dumps(x)) if rng.random() < 0.5 else copy.deepcopy(x)
                         rep.append(show(x))
                 except Exception as e:  # noqa: BLE001
                     rep.append(_real_err(e))
@@ -977,6 +998,8 @@ def ccsds_spellings(out, rng, big):
         ref_eph = Ephem([p.copy() for p in pts])
         when = t0 + timedelta(seconds=330.5)
         ref_pos = vec(ref_eph.interpolate(when))[:3]
+        omm0 = orb0.copy()
+        omm0.date = Date(int(orb0.date.mjd), 3600.0 * rng.randrange(24))      # mean elements dated at a whole second
         for lab in SCALES:
             sv = relabel(sv0, lab)
             sv.maneuvers = [ImpulsiveMan(m1.change_scale(lab), [1.0, 0.0, 0.0]), ContinuousMan(m2.change_scale(lab), timedelta(seconds=60), dv=[0.0, 1.0, 0.0], date_pos="start")]
@@ -989,7 +1012,7 @@ def ccsds_spellings(out, rng, big):
             eph = Ephem(lp)
             slack = 3e-6 if lab in ("UT1", "TDB") else 0.0
             for fmt in (("kvn", "xml") if big or lab in ("TAI", "TT") else ("kvn",)):
-                texts = {"opm": io_ccsds.dumps(sv, fmt=fmt), "oem": io_ccsds.dumps(eph, fmt=fmt)}
+                texts = {"opm": io_ccsds.dumps(sv, fmt=fmt), "oem": io_ccsds.dumps(eph, fmt=fmt), "omm": io_ccsds.dumps(relabel(omm0, lab), fmt=fmt)}
                 for how in SPELLINGS:
                     for kind, text in texts.items():
                         inp = {"message": kind, "fmt": fmt, "TIME_SYSTEM": lab, "spelling": how}
@@ -1007,7 +1030,7 @@ def ccsds_spellings(out, rng, big):
                         except Exception as e:  # noqa: BLE001
                             # a notation the readers do not know at all (whatever the TIME_SYSTEM) is not a label effect
                             try:
-                                io_ccsds.loads(respell(io_ccsds.dumps(sv0 if kind == "opm" else ref_eph, fmt=fmt), how))
+                                io_ccsds.loads(respell(io_ccsds.dumps({"opm": sv0, "oem": ref_eph, "omm": omm0}[kind], fmt=fmt), how))
                                 utc_ok = True
                             except Exception:  # noqa: BLE001
                                 utc_ok = False
@@ -1016,7 +1039,10 @@ def ccsds_spellings(out, rng, big):
                             else:
                                 out.tally(f"notation-not-supported={kind}:{how}")
                             continue
-                        if kind == "opm":
+                        if kind == "omm":
+                            if abs((back.date - omm0.date).total_seconds()) > slack + 1e-9:
+                                out.fail(fam, "OMM: the epoch written in this notation is read as another instant", inp, observed=str(back.date), expected=str(omm0.date.change_scale(lab)))
+                        elif kind == "opm":
                             got = [back.date] + [getattr(m, "date", None) or m.start for m in back.maneuvers]
                             exp = [t0, m1, m2]
                             ok = len(got) == 3 and all(abs((g - e).total_seconds()) <= slack + 1e-9 for g, e in zip(got, exp))
@@ -1069,7 +1095,10 @@ def ccsds_mixed(out, rng, big):
                             # the narrow family of the open finding: each epoch written as its own-scale clock reading under the
                             # head's TIME_SYSTEM, i.e. displaced by exactly (other − head) of the scale offsets
                             d_exp = (minus_utc(other, int(t0.mjd), "real") - minus_utc(head, int(t0.mjd), "real")) / 1e6
-                            is_known = head != other and len(got) == len(exp) and abs(moved[0]) <= 1.5e-6 and all(abs(m - d_exp) <= 2e-6 for m in moved[1:])
+                            # (an Ephem sorts its points by date on reading: compare as sets of instants)
+                            pred = sorted((e_ - t0).total_seconds() + (0.0 if i == 0 else d_exp) for i, e_ in enumerate(exp))
+                            seen = sorted((g - t0).total_seconds() for g in got)
+                            is_known = head != other and len(got) == len(exp) and all(abs(a_ - b_) <= 2e-6 for a_, b_ in zip(pred, seen))
                             out.fail("ccsds-mixed-scale-epochs" if is_known else f"ccsds-write:{kind}:label-dependent",
                                      "epochs labelled with another scale than the date that decides TIME_SYSTEM are written as clock readings of their own scale: read back, they are other instants",
                                      inp, observed={"moved_s": moved, "read": [str(g) for g in got][:4]}, expected={"moved_s": [0.0] * len(exp), "written": [str(e_) for e_ in exp][:4]})
